@@ -31,6 +31,7 @@ type Result struct {
 	Sites       []Site
 	NS, NF, NO  int
 	NLock       int
+	NChan       int // channel operations turned into polling loops
 	NLoop       int
 	Files       int
 	OverlayPath string
@@ -161,6 +162,23 @@ func deepAtomic(n ast.Node) bool {
 	return found
 }
 
+// plainValue: an expression that can be evaluated again without side effects.
+func plainValue(e ast.Expr) bool {
+	switch x := e.(type) {
+	case *ast.Ident, *ast.BasicLit:
+		return true
+	case *ast.SelectorExpr:
+		return plainValue(x.X)
+	case *ast.ParenExpr:
+		return plainValue(x.X)
+	case *ast.StarExpr:
+		return plainValue(x.X)
+	case *ast.CompositeLit:
+		return len(x.Elts) == 0
+	}
+	return false
+}
+
 func isLeaf(body *ast.BlockStmt) bool {
 	leaf := true
 	ast.Inspect(body, func(m ast.Node) bool {
@@ -212,6 +230,8 @@ const hooksSrc = `package s2
 
 // This file exists only in the verification overlay; it is never part of /repo.
 
+import "runtime"
+
 var (
 	VerifYieldFn        func(site int)
 	VerifBeforeLockFn   func(p any, read bool, site int)
@@ -222,6 +242,14 @@ func verifYield(site int) {
 	if f := VerifYieldFn; f != nil {
 		f(site)
 	}
+}
+
+// verifPoll is the "nothing yet" branch of a channel operation turned into a polling loop.
+func verifPoll(site int) {
+	if f := VerifYieldFn; f != nil {
+		f(site)
+	}
+	runtime.Gosched()
 }
 
 func verifBeforeLock(p any, read bool, site int) {
@@ -311,7 +339,33 @@ func Instrument(srcDir, outDir, keyDir string) (*Result, error) {
 			return string(src[fset.Position(e.Pos()).Offset:fset.Position(e.End()).Offset])
 		}
 		doStmt := func(s ast.Stmt, fname string) {
+			switch s.(type) {
+			case *ast.CaseClause, *ast.CommClause:
+				// the clauses of a switch/select body are not statements one can put something
+				// in front of; their own bodies are visited as statement lists of their own
+				return
+			}
 			line := fset.Position(s.Pos()).Line
+			// A goroutine that parks on a channel would keep the processor for ever under the
+			// one-runner scheduler. A receive whose value is dropped (the "wait for close(done)"
+			// idiom) and a send of a plain value are turned into polling loops with a spin-site
+			// yield: same meaning, and the scheduler stays in charge.
+			if es, ok := s.(*ast.ExprStmt); ok {
+				if ue, ok := es.X.(*ast.UnaryExpr); ok && ue.Op == token.ARROW {
+					loc := fmt.Sprintf("%s:%d:%s:chanrecv", base, line, fname)
+					add(s.Pos(), "for verifWait := true; verifWait; { select { case ")
+					add(s.End(), fmt.Sprintf(": verifWait = false; default: verifPoll(%d) } }", site("spin:"+loc, 0, true)))
+					res.NChan++
+					return
+				}
+			}
+			if ss, ok := s.(*ast.SendStmt); ok && plainValue(ss.Value) && plainValue(ss.Chan) {
+				loc := fmt.Sprintf("%s:%d:%s:chansend", base, line, fname)
+				add(s.Pos(), "for verifWait := true; verifWait; { select { case ")
+				add(s.End(), fmt.Sprintf(": verifWait = false; default: verifPoll(%d) } }", site("spin:"+loc, 0, true)))
+				res.NChan++
+				return
+			}
 			kind, _ := containsSync(s)
 			if fs, ok := s.(*ast.ForStmt); ok && fs.Body != nil && deepAtomic(fs) {
 				// possible spin-wait: force fairness at the top of each iteration
